@@ -48,6 +48,8 @@ type ObjEntry struct {
 	Positions []uint64
 	// file offset and length of the first position varint (0 when there is none)
 	PosOff, PosLen int
+	// file offset of the explicit position count (0 when the count sits in the key's low bits)
+	CountOff int
 }
 
 // Index returns the index entries of an index block.
@@ -424,15 +426,17 @@ func (f *File) parseValue(b *Block, recs []byte, p int, key string, extra int) (
 		p += k
 	case 'o':
 		cnt := uint64(extra)
+		countOff := 0
 		if extra == 0 {
 			c, k := varint(recs[p:])
 			if k < 0 {
 				return fail("bad position count")
 			}
+			countOff = int(b.Off) + p
 			p += k
 			cnt = c
 		}
-		e := ObjEntry{Prefix: []byte(key)}
+		e := ObjEntry{Prefix: []byte(key), CountOff: countOff}
 		var lastPos uint64
 		for i := uint64(0); i < cnt; i++ {
 			d, k := varint(recs[p:])
